@@ -138,3 +138,9 @@ Definition chk_opt (t : option ltree) (o : option obs) : bool :=
 Fixpoint chk_trace (ts : list (option ltree)) (os : list (option obs)) : bool :=
   match ts, os with [] , [] => true | t :: ts', o :: os' => chk_opt t o && chk_trace ts' os' | _, _ => false end.
 End Conc.
+
+(* a deliberately wrong variant of TreeNode.add_data_point (p is multiplied, r is not), used only by the
+   sensitivity example in Properties/C06.v: with it the node's own r is stale, because
+   _update_path_to_root starts at the parent *)
+Definition node_add_stale (d : dp) (n : lnode) : lnode :=
+  match n with LNode l o p r ks => LNode l (o ++ [d]) (vmul p (dp_val d)) r ks end.
